@@ -41,7 +41,7 @@ for pr in props:
 
 man = {
     "version": 1,
-    "setup_cmd": "/venv/bin/pip install -q --no-index --find-links /opt/veriftools/wheels --target /verif/.deps icontract >/dev/null 2>&1; /venv/bin/python -m compileall -q /verif/vmon >/dev/null; true",
+    "setup_cmd": "/venv/bin/python -m compileall -q /verif/vmon >/dev/null; true",
     "hooks": {
         "guard": "CNVKIT_VERIF",
         "enable": "no build step and no hook inside /repo: vcheck sets CNVKIT_VERIF=1 and vmon.runtime.attach() then replaces module/class attributes of the editable install (which resolves to /repo's working tree) by monitor wrappers; with the variable unset attach() refuses to run and the library is untouched",
